@@ -19,12 +19,13 @@ cp harness/go.sum "$WORK/go.sum.tmp.$$"
 mv "$MODF.tmp.$$" "$WORK/go.$$.mod"; mv "$WORK/go.sum.tmp.$$" "$WORK/go.$$.sum"
 trap 'rm -f "$WORK/go.$$.mod" "$WORK/go.$$.sum"' EXIT
 
-needs_overlay() { case "$1" in C10|C12) return 0;; *) return 1;; esac; }
+needs_overlay() { case "$1" in C10|C11|C12) return 0;; *) return 1;; esac; }
+OVGEN_EXTRA=()
 
 OVFLAGS=()
 prepare_overlay() {
   ( cd harness && go124 build -o "$WORK/ovgen.$$" ./cmd/ovgen ) || { echo "HARNESS-ERROR: cannot build ovgen" >&2; exit 2; }
-  "$WORK/ovgen.$$" -repo "$VERIF_REPO" -shim "$HERE/harness/zzvsync_src" -out "$WORK/ov.$$" > "$WORK/ovgen.$$.log" 2>&1 || { echo "HARNESS-ERROR: ovgen failed:" >&2; cat "$WORK/ovgen.$$.log" >&2; exit 2; }
+  "$WORK/ovgen.$$" -repo "$VERIF_REPO" -shim "$HERE/harness/zzvsync_src" -out "$WORK/ov.$$" "${OVGEN_EXTRA[@]}" > "$WORK/ovgen.$$.log" 2>&1 || { echo "HARNESS-ERROR: ovgen failed:" >&2; cat "$WORK/ovgen.$$.log" >&2; exit 2; }
   OVFLAGS=(-tags ovl -overlay "$WORK/ov.$$/overlay.json")
 }
 
@@ -48,10 +49,11 @@ case "$ID" in
     build "$BIN"
     exit 0;;
   replay)
-    if grep -q '"property": "C1[02]"' "$2" 2>/dev/null; then prepare_overlay; build "$BIN" "${OVFLAGS[@]}"; else build "$BIN"; fi
+    if grep -q '"property": "C1[012]"' "$2" 2>/dev/null; then prepare_overlay; build "$BIN" "${OVFLAGS[@]}"; else build "$BIN"; fi
     "$BIN" replay "$2"; exit $?;;
 esac
 if needs_overlay "$ID"; then
+  [ "$ID" = C11 ] && OVGEN_EXTRA=(-stmtpoints)
   prepare_overlay
   build "$BIN" "${OVFLAGS[@]}"
   if [ "$ID" = C12 ]; then
